@@ -1,6 +1,7 @@
 package task
 
 import (
+	"io"
 	"fmt"
 	"strings"
 
@@ -122,6 +123,9 @@ func ZZ_C15_Resolve() {
 		if err == nil && kind == "wildcard" {
 			m, _ := call.Vars.Get("MATCH")
 			ws, _ := m.Value.([]string)
+			if m.Value == nil { // the matched text is a live value (never rendered as a template)
+				ws, _ = m.Live.([]string)
+			}
 			zz.Assert(len(ws) == nstars, "MATCH-has-one-entry-per-star")
 			if len(ws) == nstars {
 				parts := strings.Split(names[want], "*")
@@ -292,6 +296,32 @@ func ZZ_C15_TableOrder() {
 	default:
 		zz.Assert(got == nil && err != nil, "unknown-name-is-200")
 	}
+	if zz.Twin() {
+		zz.Assert(false, "twin")
+	}
+	zz.Reach("end")
+}
+
+// ZZ_C15_MatchVerbatim: .MATCH holds exactly the matched substrings, whatever bytes they
+// are made of: the text a wildcard matched is data, not a template (run with __tmplsym=1, so
+// text that reaches the template engine is symbolic).
+func ZZ_C15_MatchVerbatim() {
+	suffix := zz.Str("matched_text", 3, "a{}.")
+	zzEnviron = []string{"HOME=/h"}
+	tf := &ast.Taskfile{Vars: ast.NewVars(), Env: ast.NewVars(), Tasks: ast.NewTasks(), Run: "always", Method: "checksum"}
+	tf.Tasks.Set("w-*", &ast.Task{Task: "w-*", Location: &ast.Location{Taskfile: "/d/f.yml"}, Vars: ast.NewVars(), Env: ast.NewVars(),
+		Cmds: []*ast.Cmd{{Cmd: "probe"}}})
+	e := &Executor{Taskfile: tf, Stdout: io.Discard, Stderr: io.Discard}
+	e.Logger = zzQuietLogger()
+	e.Compiler = &Compiler{Dir: "", TaskfileEnv: tf.Env, TaskfileVars: tf.Vars, Logger: e.Logger}
+	t, err := e.CompiledTask(&Call{Task: "w-" + suffix})
+	ok := err == nil && t != nil
+	if ok {
+		m, found := t.Vars.Get("MATCH")
+		ws, isList := m.Value.([]string)
+		ok = found && isList && len(ws) == 1 && ws[0] == suffix
+	}
+	zz.Assert(ok, "MATCH-holds-the-matched-text-verbatim")
 	if zz.Twin() {
 		zz.Assert(false, "twin")
 	}
